@@ -254,6 +254,10 @@ def classify(h, out, rc, timed_out, pid):
         r["verdict"] = "inconclusive"
         r["why"] = "timeout"
         return r
+    if re.search(r"Out of memory|out of memory|CBMC failed with status|CBMC failed\n", out) and not any(c["status"] == "FAILURE" for c in checks):
+        r["verdict"] = "inconclusive"
+        r["why"] = "CBMC ran out of memory / crashed (no verdict)"
+        return r
     if res is None:
         r["verdict"] = "inconclusive"
         tail = out[-1500:]
